@@ -1099,7 +1099,7 @@ func (x *Exec) globalVal(o *types.Var, st *State) Val {
 	inInit := strings.Contains(c.fn, ".init") && gi != nil && gi.pkg == x.pkg
 	if inInit && gi.init == nil {
 		v = c.zeroVal(o.Type(), nil)
-	} else if gi != nil && gi.init != nil && (!gi.assigned || inInit) {
+	} else if gi != nil && gi.init != nil && (!gi.assigned || inInit) && !(gi.establishedBy == "initializer" && c.fn != "global:"+key) {
 		// value defined by the initializer expression (evaluated in the declaring package)
 		sub := &Exec{c: c, pkg: gi.pkg, info: gi.pkg.info, entry: nil, sig: types.NewSignatureType(nil, nil, nil, nil, nil, false), loopOrd: new(int)}
 		tmp := &State{vars: map[types.Object]Val{}, heap: map[string]Val{}, ghost: map[string]Val{}, pc: tTrue}
